@@ -4,7 +4,10 @@ import os
 import subprocess
 
 import vf
-from manifest_table import CHECKS, NOT_APPLICABLE, ENGINES, NOTES
+import glob
+import importlib
+
+from manifest_table import NOT_APPLICABLE, ENGINES, NOTES
 
 
 def main():
@@ -15,10 +18,14 @@ def main():
         if subj.startswith("verif:") or subj.startswith("hook:"):
             hooks.append(h)
     checks = []
+    CHECKS = {}
+    for f in sorted(glob.glob(os.path.join(vf.VERIF, "lib", "checks", "c[0-9][0-9].py"))):
+        pid = os.path.basename(f)[:-3].upper()
+        mod = importlib.import_module("checks." + pid.lower())
+        if hasattr(mod, "MANIFEST"):
+            CHECKS[pid] = mod.MANIFEST
     for pid in sorted(CHECKS):
         c = CHECKS[pid]
-        if not os.path.exists(os.path.join(vf.VERIF, "lib", "checks", pid.lower() + ".py")):
-            continue
         checks.append({
             "property_id": pid,
             "quick_cmd": "./bin/verif check %s --tier quick" % pid,
